@@ -27,6 +27,7 @@ THEOREMS = [
     "C08.roundtrip_shipped",
     "C08.settings_preserved",
     "C08.imports_ok",
+    "C08.registry_complete",
 ]
 RULE = (
     "exhaustive over the classes found by introspection (every class with to_dict+from_dict that is concrete by "
@@ -148,6 +149,29 @@ def falsy_override(sp: dict) -> dict:
     return {s["name"]: s["falsy"] for s in sp["settings"] if s.get("falsy", g.NoFalsy) is not g.NoFalsy}
 
 
+def foreign_override(sp: dict) -> dict:
+    """every setting at the DEFAULT the same-named setting has in another class, where that differs from this class's
+    own default (e.g. `max_attempts`: 10000 on every move, 10 on the Hamiltonian move): a serializer that drops
+    "default" values by comparing with the wrong class's default only bites there"""
+    g = gc()
+    out = {}
+    for s in sp["settings"]:
+        own = s.get("default", g.NoFalsy)
+        if own is g.NoFalsy or s.get("special") or isinstance(own, bool) or not isinstance(own, (int, float, str)):
+            continue
+        cands = []
+        for other in specs().values():
+            if other["name"] == sp["name"]:
+                continue
+            for t in other["settings"]:
+                d = t.get("default", g.NoFalsy)
+                if t["name"] == s["name"] and d is not g.NoFalsy and type(d) is type(own) and d != own:
+                    cands.append(d)
+        if cands:
+            out[s["name"]] = sorted(set(cands), key=repr)[0]
+    return out
+
+
 def make(tree, values: str = "sentinel"):
     """the real object described by a probe tree: every setting at its sentinel (or, `values="falsy"`, at a
     falsy value of its type where it has one: 0, 0.0, False, "", empty/zero arrays), children as given"""
@@ -166,7 +190,8 @@ def make(tree, values: str = "sentinel"):
             children.setdefault(slot, {})[key] = ch
     with warnings.catch_warnings():
         warnings.simplefilter("ignore")
-        return g.build(cls, sp, override=falsy_override(sp) if values == "falsy" else None,
+        return g.build(cls, sp, override=falsy_override(sp) if values == "falsy" else
+                       foreign_override(sp) if values == "foreign" else None,
                        alt_children=children, explicit=True).obj
 
 
@@ -335,7 +360,9 @@ class RoundTrip(common.Suite):
             if sp["slots"]:
                 trees += [tree_for(sp, rng, d, v) for d in (2, 3) for v in range(nrand)]
             for t in trees:
-                for values in ("sentinel", "falsy"):
+                for values in ("sentinel", "falsy", "foreign"):
+                    if values == "foreign" and not any(foreign_override(S[n]) for n in {node_at(t, p)[0] for p in all_paths(t)}):
+                        continue
                     c = emit(t, [], ["none"], values)
                     if c:
                         out.append(c)
@@ -442,7 +469,7 @@ class RoundTrip(common.Suite):
         sp = specs().get(case["tree"][0], {})
         depth = max((len(p) for p in all_paths(case["tree"])), default=0)
         o = obs.get("outcome", "exception").split()[:2]
-        return f"{sp.get('kind', '?')}:depth{depth}:{case['mut'][0]}{'@inner' if case['path'] else ''}{'/falsy' if case.get('values') == 'falsy' else ''}:{' '.join(o[:2] if o and o[0] == 'err' else o[:1])}"
+        return f"{sp.get('kind', '?')}:depth{depth}:{case['mut'][0]}{'@inner' if case['path'] else ''}{'/' + case['values'] if case.get('values') in ('falsy', 'foreign') else ''}:{' '.join(o[:2] if o and o[0] == 'err' else o[:1])}"
 
 
 # --------------------------------------------------------------------------- import-first
@@ -450,7 +477,7 @@ class RoundTrip(common.Suite):
 
 LOOKUP_SNIPPET = (
     "import {m}\n"
-    "import quansino.mc, quansino.moves, quansino.operations, quansino.integrators, quansino.utils\n"
+    "import quansino.mc\n"      # what a reader of a restart file imports; nothing else may be needed
     "from quansino.registry import get_class\n"
     "missing = []\n"
     "for n in {names!r}:\n"
@@ -460,6 +487,11 @@ LOOKUP_SNIPPET = (
     "        missing.append(n)\n"
     "print('MISSING', ','.join(missing))\n"
 )
+
+
+def reg_names() -> list[str]:
+    """the registered names of every shipped class (what `from_dict` looks up)"""
+    return sorted({n for sp in specs().values() for n in (sp.get("registered") or [sp["name"]])})
 
 
 def fresh_import(module: str, names: list[str]) -> dict:
@@ -483,7 +515,7 @@ class ImportFirst(common.Suite):
 
         data = _STATE.get("imports") or gen_imports.build(gen_imports.source_root())
         mods = [data["names"][i] for i in data["public"]]
-        names = sorted(specs())
+        names = reg_names()
         with concurrent.futures.ThreadPoolExecutor(max_workers=16) as ex:
             results = list(ex.map(lambda m: fresh_import(m, names), mods))
         self.results = dict(zip(mods, results))
@@ -491,28 +523,105 @@ class ImportFirst(common.Suite):
 
     def real(self, case):
         if not hasattr(self, "results") or case["module"] not in self.results:
-            return fresh_import(case["module"], sorted(specs()))
+            return fresh_import(case["module"], reg_names())
         return self.results[case["module"]]
 
     def model_lines(self, case):
-        return [f"c08.imp {case['module']}"]
+        return [f"c08.imp {case['module']}", f"c08.reg {case['module']}"]
 
     def model_obs(self, case, outs):
-        return {"verdict": outs[0].split()[0]}
+        w = outs[1].split(" ", 1)
+        miss = sorted(x for x in (w[1].split(",") if len(w) > 1 else []) if x)
+        return {"verdict": outs[0].split()[0], "missing": miss if w[0] == "missing" else None}
+
+    def compare(self, case, real, model):
+        d = []
+        if (real.get("verdict") == "ok") != (model["verdict"] == "ok"):
+            d.append(f"import {case['module']} first: real {real.get('verdict')} / model {model['verdict']}")
+        elif real.get("verdict") == "ok" and sorted(real.get("missing", [])) != model["missing"]:
+            d.append(f"registry after importing {case['module']} then quansino.mc: real misses {sorted(real.get('missing', []))}, "
+                     f"model misses {model['missing']}")
+        return d
 
     def oracle(self, case, obs):
         m = case["module"]
         if obs.get("verdict") != "ok":
             return [(f"import-first:{m}", f"a fresh interpreter cannot import {m} first: {obs.get('message')}")]
-        return [(f"import-first:{m}:registry:{n}", f"after importing {m} first and then the sub-packages, {n} is not registered")
+        return [(f"import-first:{m}:registry:{n}", f"after importing {m} first and then quansino.mc, {n} is not registered")
                 for n in obs.get("missing", [])]
 
     def classify(self, case, obs):
         return obs.get("verdict", "exception")
 
 
+class UsedCriteria(common.Suite):
+    """criteria objects that have already DECIDED trials (evaluate() may leave working data on the instance — the
+    isotension criteria keeps its last strain tensor) must serialize and rebuild like fresh ones, alone and inside a
+    move-table entry. Real objects and contexts as in the C02 check; the model's prediction for an unmutated shipped
+    class is `ok` (theorem `roundtrip_shipped`)."""
+
+    name = "roundtrip-after-use"
+    KINDS = ["can", "ham", "npt", "nst", "gc"]
+
+    def cases(self, rng, tier):
+        from props import c02
+
+        n = 6 if tier == "quick" else 60
+        for i in range(n * len(self.KINDS)):
+            c = c02.gen_case(rng, self.KINDS[i % len(self.KINDS)])
+            c["natoms"] = min(c["natoms"], 20) or 2
+            c["nevals"] = rng.choice([1, 1, 2, 3])
+            c["in_storage"] = i % 2 == 1
+            yield c
+
+    def real(self, case):
+        import quansino.mc  # noqa: F401
+        from ase.io.jsonio import decode, encode
+        from props import c02
+        from quansino.registry import get_class
+
+        g = gc()
+        crit, ctx, rng = c02.build(case)
+        c02.observe(crit, ctx, rng, [0.5] * case["nevals"])
+        obj = crit
+        if case["in_storage"]:
+            from quansino.moves.displacement import DisplacementMove
+            from quansino.utils.moves import MoveStorage
+
+            import numpy as np
+
+            obj = MoveStorage(move=DisplacementMove(np.arange(case["natoms"])), criteria=crit, interval=2,
+                              probability=0.5, minimum_count=0)
+        try:
+            text = encode(obj.to_dict())
+            d = decode(text)
+            new = get_class(d["name"]).from_dict(copy.deepcopy(d))
+            again = decode(encode(new.to_dict()))
+        except Exception as e:  # noqa: BLE001
+            return {"outcome": classify_exception(e), "message": f"{type(e).__name__}: {str(e)[:200]}",
+                    "cls": type(crit).__name__}
+        return {"outcome": "ok" if type(new) is type(obj) else f"class {type(new).__name__}",
+                "second_dict_same": bool(g.deep_same(again, d)), "cls": type(crit).__name__}
+
+    def model_lines(self, case):
+        return []
+
+    def oracle(self, case, obs):
+        where = "in-storage" if case["in_storage"] else "alone"
+        if obs.get("outcome") != "ok":
+            return [(f"roundtrip-after-use:{obs.get('cls')}:{where}",
+                     f"a criteria that has evaluated {case['nevals']} trial(s) does not survive to_dict -> JSON -> from_dict: "
+                     f"{obs.get('outcome')} {obs.get('message', '')}")]
+        if not obs.get("second_dict_same"):
+            return [(f"roundtrip-after-use:{obs.get('cls')}:{where}:second-dict-differs", "second to_dict differs")]
+        return []
+
+    def classify(self, case, obs):
+        return f"{case['kind']}:{'storage' if case['in_storage'] else 'alone'}:{obs.get('outcome', 'exception').split()[0]}"
+
+
 def suites(tier):
-    return [RoundTrip(), ImportFirst()]
+    return [RoundTrip(), ImportFirst(), UsedCriteria()]
 
 
 def extra_coverage(res):
